@@ -208,6 +208,15 @@ class LoopCtl:
                     self._by_role[id(inner[0])] = (label, sp)
         if id(node) in self._by_role:
             return self._by_role[id(node)]
+        if self.ordinal(node) is None:
+            # a loop of a helper that runs in place (the loop was moved out of the function under contract): the
+            # contract whose text it contains, if exactly one does and no loop of the function itself claimed it
+            taken = {lab for lab, _sp in self._by_role.values()}
+            hits = [(lab, sp) for lab, sp in self.con.loops.items()
+                    if getattr(sp, "where", None) and lab not in taken and sp.where in ast.unparse(node)]
+            if len(hits) == 1:
+                self._by_role[id(node)] = hits[0]
+                return hits[0]
         k = self.ordinal(node)
         sp = self.con.loops.get(k) if k is not None else None
         if sp is not None and getattr(sp, "where", None):
